@@ -14,7 +14,8 @@ from ..drv import (HID, SER, lock_worlds, call_sites, is_wire_write,
 
 def _fn(world, cq, name):
     r = world.method(cq, name)
-    return r[0], r[2]
+    from ..drv import expand_method
+    return r[0], expand_method(world, world.cls(cq), r[2], aliases="params")
 
 
 def check(run, repo, world):
@@ -50,9 +51,20 @@ def check(run, repo, world):
     _check_retry(run, repo, world, mod)
     _check_reconnect(run, repo, world, mod)
     _check_timeout(run, repo, world)
+    _check_lock_and_prefix(run, repo, world)
 
 
 # ---------------------------------------------------------------------------
+def _check_lock_and_prefix(run, repo, world):
+    """Shared with C15: the transaction lock is released on every exit
+    (normal, exception, cancellation, gateway timeout) and every retry of a
+    command repeats its EnableDeviceType prefix."""
+    from .C15 import build, check_lock_pair, _check_edt
+    fns, callers = build(world)
+    check_lock_pair(run, repo, world, fns)
+    _check_edt(run, repo, world, fns)
+
+
 def _check_slot(run, repo, world, mod):
     run.rule("R-SLOT", "in-flight slot released (or table cleared) on every "
              "exit of tridonic._send_raw, including cancellation at an await")
@@ -61,10 +73,7 @@ def _check_slot(run, repo, world, mod):
     cfg = CFG(fn, may_raise=suspension_may_raise, name=Q)
     # _shutdown_device clears the table (so disconnect() releases the slot)
     so, sfn = _fn(world, HID + ".tridonic", "_shutdown_device")
-    clears = any(unparse(n) in ("self._outstanding = {}",
-                                "self._outstanding.clear()")
-                 for n in ast.walk(sfn) if isinstance(n, (ast.Assign,
-                                                          ast.Expr)))
+    clears = _clears_table(sfn)
     do, dfn = _fn(world, HID + ".hid", "disconnect")
     calls_sd = _all_paths_call(dfn, "self._shutdown_device()")
     run.ob("R-SLOT", HID + ".tridonic._shutdown_device#clears-table",
@@ -148,6 +157,44 @@ def _check_slot(run, repo, world, mod):
                        False, "the gateway serialiser must be held with "
                        "`async with`, not a bare acquire()", where(mod, n))
     run.floor("async-with serialiser regions in hid.py", n_with, 3)
+
+
+def _clears_table(sfn):
+    """self._outstanding is emptied / replaced by an empty dict by a
+    top-level statement of _shutdown_device."""
+    for n in sfn.body:
+        if isinstance(n, ast.Expr) and unparse(n) == \
+                "self._outstanding.clear()":
+            return True
+        if isinstance(n, ast.Assign) and len(n.targets) == 1:
+            t, v = n.targets[0], n.value
+            pairs = [(t, v)]
+            if isinstance(t, ast.Tuple) and isinstance(v, ast.Tuple) and \
+                    len(t.elts) == len(v.elts):
+                pairs = list(zip(t.elts, v.elts))
+            for (a, b) in pairs:
+                if unparse(a) == "self._outstanding" and unparse(b) in (
+                        "{}", "dict()"):
+                    return True
+    return False
+
+
+def _table_aliases(sfn):
+    """Local names holding the in-flight table (e.g. after swapping it out
+    for a fresh dict)."""
+    out = {"self._outstanding"}
+    for n in ast.walk(sfn):
+        if isinstance(n, ast.Assign) and len(n.targets) == 1:
+            t, v = n.targets[0], n.value
+            pairs = [(t, v)]
+            if isinstance(t, ast.Tuple) and isinstance(v, ast.Tuple) and \
+                    len(t.elts) == len(v.elts):
+                pairs = list(zip(t.elts, v.elts))
+            for (a, b) in pairs:
+                if isinstance(a, ast.Name) and unparse(b) == \
+                        "self._outstanding":
+                    out.add(a.id)
+    return out
 
 
 def _all_paths_call(fn, text):
@@ -239,11 +286,16 @@ def _check_wake(run, repo, world, mod):
     run.rule("R-WAKE", "disconnect -> _shutdown_device wakes every waiter "
              "with 'fail'; waiters raise CommunicationError on 'fail'")
     so, sfn = _fn(world, HID + ".tridonic", "_shutdown_device")
+    tabs = _table_aliases(sfn)
     loop = [n for n in ast.walk(sfn) if isinstance(n, ast.For) and unparse(
-        n.iter) == "self._outstanding.values()"]
-    ok = len(loop) == 1 and any(unparse(s) == "messages.append('fail')"
-                                for s in loop[0].body) and any(
-        unparse(s) == "event.set()" for s in loop[0].body)
+        n.iter) in {"%s.values()" % t for t in tabs} and isinstance(
+            n.target, ast.Tuple) and len(n.target.elts) == 2]
+    ok = len(loop) == 1
+    if ok:
+        ev_, ms_ = [unparse(x) for x in loop[0].target.elts]
+        body = [unparse(s) for s in loop[0].body]
+        ok = ("%s.append('fail')" % ms_) in body and (
+            "%s.set()" % ev_) in body
     run.ob("R-WAKE", HID + ".tridonic._shutdown_device", ok,
            "every in-flight entry must get 'fail' appended and its event set",
            where(mod, sfn))
@@ -344,45 +396,85 @@ def _check_wrfail(run, repo, world, mod):
     t = ast.unparse(rfn)
     hs = [unparse(h.type) for x in ast.walk(rfn) if isinstance(x, ast.Try)
           for h in x.handlers if h.type is not None]
-    run.ob("R-WRFAIL", HID + ".hid._reader", "OSError" in hs and
-           "if len(data) == 0:" in t and "self.disconnect(reconnect=True)"
-           in t, "a read error or end of file must disconnect with reconnect",
+    # a read error (handler) or end of file (empty read) leads to
+    # disconnect(reconnect=True): the handler either disconnects itself or
+    # makes `data` empty, and an emptiness test of `data` disconnects
+    okr = "OSError" in hs
+    empt = False
+    for x in ast.walk(rfn):
+        if isinstance(x, ast.If) and unparse(x.test) in (
+                "len(data) == 0", "not data", "data == b''",
+                "not len(data)", "data is None or len(data) == 0") and any(
+                    unparse(s_) == "self.disconnect(reconnect=True)"
+                    for s_ in x.body):
+            empt = True
+    hand = False
+    for x in ast.walk(rfn):
+        if isinstance(x, ast.Try):
+            for h in x.handlers:
+                if h.type is not None and unparse(h.type) == "OSError":
+                    hb = [unparse(s_) for s_ in h.body]
+                    if "self.disconnect(reconnect=True)" in hb or any(
+                            b_ in ("data = b''", "data = None",
+                                   "data = bytes()") for b_ in hb):
+                        hand = True
+    run.ob("R-WRFAIL", HID + ".hid._reader", okr and empt and hand,
+           "a read error or end of file must disconnect with reconnect "
+           "(OSError handler: %s, empty-read test: %s)" % (hand, empt),
            where(mod, rfn))
 
 
 def _check_retry(run, repo, world, mod):
     run.rule("R-RETRY", "send/power_supply swallow only CommunicationError, "
              "only when exceptions is false, inside the retry loop")
+    from .. import paths
     for name in ("send", "power_supply"):
         o, f2 = _fn(world, HID + ".hid", name)
         Q = HID + ".hid." + name
-        handlers = [(x, h) for x in ast.walk(f2) if isinstance(x, ast.Try)
-                    for h in x.handlers]
-        ok = len(handlers) == 1
-        if ok:
-            t, h = handlers[0]
-            ok = h.type is not None and unparse(h.type) == \
-                "CommunicationError" and len(h.body) == 1 and unparse(
-                    h.body[0]) == "if exceptions:\n    raise".replace(
-                        "\n    ", " ") or (
-                    len(h.body) == 1 and isinstance(h.body[0], ast.If) and
-                    unparse(h.body[0].test) == "exceptions" and len(
-                        h.body[0].body) == 1 and isinstance(
-                            h.body[0].body[0], ast.Raise) and not
-                    h.body[0].orelse)
-            # inside `while not command_sent`
-            p = getattr(t, "_parent", None)
+        tries = []
+        for x in ast.walk(f2):
+            if isinstance(x, ast.Try) and x.handlers and any(
+                    isinstance(c, ast.Call) and unparse(c.func) in (
+                        "self._send_raw", "self._power_supply")
+                    for b in x.body for c in ast.walk(b)):
+                tries.append(x)
+        ok = bool(tries)
+        why = "" if tries else "no try/except around the transmission"
+        for t in tries:
+            types = [unparse(h.type) if h.type is not None else "<bare>"
+                     for h in t.handlers]
+            if types != ["CommunicationError"]:
+                ok, why = False, "handlers %s" % types
+                continue
+            # handler: re-raise exactly when `exceptions` is true
+            hf = ast.FunctionDef(name="handler", args=f2.args,
+                                 body=list(t.handlers[0].body),
+                                 decorator_list=[], returns=None,
+                                 type_comment=None, type_params=[])
+            ast.fix_missing_locations(hf)
+            ps = paths.summaries(hf)
+            for p_ in ps:
+                conds = {(unparse(c), b) for (c, b) in p_.conds}
+                if p_.kind == "raise" and p_.expr is None:
+                    if conds != {("exceptions", True)}:
+                        ok, why = False, "re-raises when %s" % sorted(conds)
+                elif p_.kind == "fall":
+                    if conds != {("exceptions", False)}:
+                        ok, why = False, "swallows when %s" % sorted(conds)
+                else:
+                    ok, why = False, "handler does %r" % p_
+            # retried: the try statement sits inside a loop
             inloop = False
-            while p is not None and p is not f2:
-                if isinstance(p, ast.While) and unparse(p.test) == \
-                        "not command_sent":
+            for w in ast.walk(f2):
+                if isinstance(w, ast.While) and any(t is y for y in
+                                                    ast.walk(w)):
                     inloop = True
-                p = getattr(p, "_parent", None)
-            ok = ok and inloop
+            if not inloop:
+                ok, why = False, "not inside a retry loop"
         run.ob("R-RETRY", Q, ok,
-               "the retry handler must be exactly `except CommunicationError: "
-               "if exceptions: raise` inside `while not command_sent`",
-               where(mod, f2))
+               "the transmission must be retried in a loop whose only "
+               "handler is `except CommunicationError`, re-raising exactly "
+               "when `exceptions` is true: %s" % why, where(mod, f2))
         # `exceptions` defaults to the driver attribute
         run.ob("R-RETRY", Q + "#default",
                "exceptions = self.exceptions_on_send" in ast.unparse(f2),
